@@ -25,7 +25,10 @@ T1 == [name  |-> <<"N ", PA, " and ", PB, " end">>,
        tags  |-> << <<"t", PA>>, <<"plain">>, <<PB, "-", PA>> >>,
        steps |-> << Step(<<"s ", PA, PB>>, <<"d ", PA, NL, PB, " ", PB, " b">>, None, None),
                     Step(<<"w ", PB>>, None, << <<"h", PA>>, <<"k">> >>, << << <<PB>>, <<"c", PA, PA>> >> >>),
-                    Step(<<"no placeholder a b">>, None, None, None) >>]
+                    Step(<<"no placeholder a b">>, None, None, None),
+                    \* placeholders in the doc-string / the table only, none in the step's own name
+                    Step(<<"letter">>, <<"Dear ", PA, NL, PB, ".">>, None, None),
+                    Step(<<"table of b a">>, None, << <<PB>>, <<"k", PA>> >>, << << <<PA>>, <<"v">> >>, << <<"b">>, <<PB, PA>> >> >>) >>]
 SwapTok(tok) == IF tok = PA THEN PB ELSE IF tok = PB THEN PA ELSE tok
 SwapText(t) == [i \in DOMAIN t |-> SwapTok(t[i])]
 SwapTexts(ts) == [i \in DOMAIN ts |-> SwapText(ts[i])]
@@ -99,7 +102,9 @@ MkBlock(c, bi) ==
    LET h == Hash(c)
    IN [name |-> BlockNames[((h + bi) % 3) + 1], tags |-> BlockTags[(((h \div 3) + 2 * bi) % 3) + 1], cols |-> ColsFor(c.ords[bi]),
        hline |-> 0,
-       rows |-> [r \in DOMAIN c.rows[bi] |-> [cells |-> CellsFor(c.ords[bi], c.rows[bi][r]), line |-> 0]]]
+       \* comment / blank lines between the rows of the examples table rotate with the case
+       rows |-> [r \in DOMAIN c.rows[bi] |-> [cells |-> CellsFor(c.ords[bi], c.rows[bi][r]), line |-> 0,
+                                              gap |-> (h + 2 * bi + r) % 3]]]
 Mk(c) == LET T == Templates[c.t]
          IN WithLines([name |-> T.name, tags |-> T.tags, steps |-> T.steps,
                        blocks |-> [bi \in DOMAIN c.rows |-> MkBlock(c, bi)]])
